@@ -222,13 +222,39 @@ def _fromspec_chunk(args):
             spec = RangeSpecifier(min=lo, max=hi, include_min=bool(r["li"]), include_max=bool(r["ui"]))
             shape = ("eq" if lo is not None and lo == hi else "two-sided" if lo is not None and hi is not None else "one-sided")
             ctx = {"name": name, "spec": {"lo": str(lo), "hi": str(hi), "li": r["li"], "ui": r["ui"]}}
+        # the same range as a user obtains it: a comma set, in either clause order (the parser intersects the clauses)
+        variants = [(spec, shape, None)]
+        if it["k"] not in ("fromclause", "fromhole") and lo is not None and hi is not None and lo != hi:
+            c_lo, c_hi = f"{'>=' if r['li'] else '>'}{lo}", f"{'<=' if r['ui'] else '<'}{hi}"
+            texts = [f"{c_lo},{c_hi}", f"{c_hi},{c_lo}"]
+            if r["ui"]:            # the closed upper end as a separate pin, joined by the union operator in either order
+                texts += [f"{c_lo},<{hi}||=={hi}", f"=={hi}||{c_lo},<{hi}"]
+            if r["li"]:
+                texts += [f"=={lo}||>{lo},{c_hi}", f">{lo},{c_hi}||=={lo}"]
+            for txt in texts:
+                try:
+                    variants.append((parse_version_specifier(txt), shape + ",parsed", txt))
+                except Exception as e:  # noqa: BLE001
+                    fails.append(("C11", f"C11:from_specifier({name},{shape},parsed):parse-raises-{type(e).__name__}", f"{txt}: {e!r}", ctx))
+        for spec, shape, txt in variants:
+            _fromspec_one(it, st, name, spec, shape, dict(ctx, text=txt) if txt else ctx, envs, fails, text if it["k"] == "fromclause" else txt,
+                          lo if it["k"] != "fromclause" else None, hi if it["k"] != "fromclause" else None, h if it["k"] == "fromhole" else None, r if it["k"] not in ("fromclause", "fromhole") else None)
+            n += 1
+    return n, fails
+
+
+def _fromspec_one(it, st, name, spec, shape, ctx, envs, fails, text, lo, hi, h, r):
+    from packaging.version import Version
+    from dep_logic.markers.single import MarkerExpression
+    n = 0
+    if True:
         try:
             m = MarkerExpression.from_specifier(name, spec)
         except Exception as e:  # noqa: BLE001
             fails.append(("C11", f"C11:from_specifier({name},{shape}):raises-{type(e).__name__}", repr(e), ctx))
-            continue
+            return
         if m is None:
-            continue
+            return
         seen = set()
         for i, env in enumerate(envs):
             val = env[name]
@@ -265,7 +291,6 @@ def _fromspec_chunk(args):
                 fails.append(("C11", f"C11:from_specifier({name},{shape},{txt.split()[1] if ' ' in txt else ''}):atom-differs-from-specifier",
                               f"from_specifier({name!r}, {spec}) = {txt!r}: evaluates {got} on {val} but the specifier {'admits' if want else 'rejects'} it", dict(ctx, atom=txt, value=val)))
                 break
-    return n, fails
 
 
 def _pmap(fn, jobs):
